@@ -74,6 +74,11 @@ RdDequeue == /\ st = "wait" /\ rq # <<>>
              /\ iter' = 0
              /\ UNCHANGED <<frames, net, delivered>>
 
+\* queue.get(True, 5) times out with nothing queued: `except queue.Empty: continue` - nothing changes, however long the
+\* stream stays silent in the middle of a frame (a stuttering step, named so that traces can record it)
+RdPollTimeout == /\ st = "wait" /\ rq = <<>>
+                 /\ UNCHANGED vars
+
 AfterConsume(nb) == IF Len(nb) = 0 \/ Len(nb) < H THEN "wait" ELSE "run"
 
 \* header cannot even be parsed (fewer than H bytes after a discard): "only garbage", close
@@ -104,7 +109,7 @@ RdIterD(d) ==
 
 RdIter == RdShort \/ (st = "run" /\ Len(rbuf) >= H /\ \E d \in Decl(rbuf) : RdIterD(d))
 
-Next == IoRecv \/ RdDequeue \/ RdIter
+Next == IoRecv \/ RdDequeue \/ RdIter \/ RdPollTimeout
 
 \* ---------------------------------------------------------------- properties
 \* operator forms (also used by the monitor evaluated on observations of the real code)
